@@ -121,9 +121,9 @@ void harness(void)
 #endif    /* type of channel 1 enumerated (synchronous or not must stay concrete) */
         uint8_t  c0, c1, s1;
         uint32_t exp = 0;
-        v1800_1[0] = 0x40000180; v1800_2[0] = 1; v1A00_0[0] = 1;   /* registered as synchronous with a concrete type; the symbolic type is injected below */ v1A00[0][0] = CO_LINK(0x2100, 0, 8);
+        V1800_1(0) = 0x40000180; V1800_2(0) = 1; V1A00_0(0) = 1;   /* registered as synchronous with a concrete type; the symbolic type is injected below */ V1A00(0, 0) = CO_LINK(0x2100, 0, 8);
 #if OD_TPDO > 1
-        v1800_1[1] = 0x40000280; v1800_2[1] = n1; v1A00_0[1] = 1; v1A00[1][0] = CO_LINK(0x2101, 0, 16);
+        V1800_1(1) = 0x40000280; V1800_2(1) = n1; V1A00_0(1) = 1; V1A00(1, 0) = CO_LINK(0x2101, 0, 16);
 #endif
         app.b = ND_U8(); app.w = ND_U16();
         node_boot();
@@ -135,7 +135,7 @@ void harness(void)
         s1 = (OD_TPDO > 1) && (n1 <= 240);               /* channel 1 synchronous?    */
 #if MODE == 3
         CHECK(node.Sync.TPdo[0] != 0 && node.Sync.TNum[0] == 1, "synchronous TPDO registered with its type");
-        node.Sync.TNum[0] = n0; v1800_2[0] = n0;
+        node.Sync.TNum[0] = n0; V1800_2(0) = n0;
 #if OD_TPDO > 1
         CHECK((node.Sync.TPdo[1] != 0) == s1, "event-driven TPDO not registered for SYNC");
 #endif
